@@ -1230,6 +1230,9 @@ package cache
 //@       hasH(dst.shardedMap, h) && sameEntry(ent(dst.shardedMap, h), ent(src.shardedMap, h))
 //@   ensures [C13.relay.source] mapKept(src.shardedMap)
 
+//@ func verifRelayOf
+//@   like verifRelay subst TraitEntry=TraitEntryOf[V] recIs=recIsOf shardedMap=shardedMapOf recStored=recStoredOf
+
 //@ func verifRelayToSync
 //@   props C13
 //@   requires src != nil && dst != nil && src.shardedMap != nil && dst.syncMap != nil
